@@ -139,6 +139,7 @@ type vfClientStream struct {
 	onSend     func(*adminservice.StreamWorkflowReplicationMessagesRequest) error
 	client, sv history.ClusterShardID
 	brk        chan struct{}
+	noAutoEOF  bool // the peer does not end the stream when the proxy half-closes it
 }
 
 func (c *vfClientStream) breakNow() {
@@ -183,7 +184,7 @@ func (c *vfClientStream) Send(m *adminservice.StreamWorkflowReplicationMessagesR
 func (c *vfClientStream) CloseSend() error {
 	if !c.closeSent {
 		c.closeSent = true
-		if !c.ended {
+		if !c.ended && !c.noAutoEOF {
 			c.ended = true
 			c.delivered++
 			c.recvQ <- vfItem{err: io.EOF}
